@@ -473,7 +473,9 @@ func (h *c19InstH) Run(id int) {
 	var ret int
 	var look dyn.Buf
 	if h.cfg.Mode == "readers" {
-		dst := dyn.Alloc(h.d, al(C, fr, fr))
+		// (the second reader's destination is one frame shorter than the shared source)
+		dfr := fr - id
+		dst := dyn.Alloc(h.d, al(C, dfr, dfr))
 		ret = dyn.Conv(h.shared, dst)
 		look = dst
 	} else {
